@@ -9,7 +9,8 @@ Inductive step :=
 | SBatch (chs : list lchange)                 (* ApplyCacheUpdate, in this order *)
 | SCreate (u : sym) (r : lrow) (chk : bool)
 | SUpdate (u : sym) (r : lrow) (chk : bool)
-| SDelete (u : sym).
+| SDelete (u : sym)
+| SPurge.                                     (* TableCache.Purge: an empty cache with empty indexes *)
 
 Record probe := mkProbe { p_uuid : option sym; p_vals : lrow; p_client : bool; o_hits : list sym }.
 Record snap := mkSnap {
@@ -45,6 +46,7 @@ Definition do_step (T : table) (specs : list ispec) (c : rc) (s : step) : nat * 
   | SCreate u r chk => lift c (rc_create T specs chk c u (mkrow r))
   | SUpdate u r chk => lift c (rc_update T specs chk c u (mkrow r))
   | SDelete u => lift c (rc_delete T specs c u)
+  | SPurge => (0, rc_empty specs)
   end.
 
 Definition groups_of (m : idx1) : gset (gset sym) := list_to_set (snd <$> map_to_list m).
